@@ -72,6 +72,14 @@ def arrays_of(desc):
     U = desc["universe"]
     items = build.uitems(U)
     out = {}
+    small = bool(desc.get("zero_tol")) and desc.get("tol") == "explicit"
+    _full_code = globals()["code"]
+    if small:
+        # small integers, so that sums stay exact in float64 together with a 2^-40 imbalance
+        def code(U_, letters, lab, salt):
+            return _full_code(U_, letters, lab, salt) % 61 + 1
+    else:
+        code = _full_code
     for i, f in enumerate(desc["flows"]):
         m = MArr.from_fn(f["letters"], items, lambda lab, i=i, f=f: Fraction(code(U, f["letters"], lab, i)))
         out[f"F{i}"] = m
@@ -162,6 +170,10 @@ def run_balance(desc, reuse=None):
         delta = Fraction(pert["factor"]) * Fraction(base_tol)
         if tol is None:
             tol = 1.0
+        if desc["tol"] == "explicit" and desc.get("zero_tol"):
+            # an explicit tolerance of exactly 0 demands exact balance; the imbalance is a tiny dyadic number
+            tol = 0.0
+            delta = Fraction(1 if pert["factor"] > 0 else (-1 if pert["factor"] < 0 else 0), 2**40)
         arrs[name].data[key] += delta
         if desc["tol"] == "default":
             tol = default_tol()  # the perturbed entry may be the new maximum
@@ -180,7 +192,12 @@ def run_balance(desc, reuse=None):
         nadd = sum(len(m.data) for _, m in con[p])
         mag = sum(abs(float(v)) for _, m in con[p] for v in m.data.values())
         integral = all(v.denominator == 1 for _, m in con[p] for v in m.data.values())
-        if not (integral and mag < 2.0**52):  # integer sums below 2^52 are exact in float64
+        dyadic = (all((v * 2**30).denominator == 1 for _, m in con[p] for v in m.data.values()) and mag < 2.0**21) or (
+            all((v * 2**40).denominator == 1 for _, m in con[p] for v in m.data.values()) and mag < 2.0**11
+        )
+        if dyadic:
+            pass  # multiples of 2^-30 below 2^21: every partial sum fits into 53 bits, so float sums are exact
+        elif not (integral and mag < 2.0**52):  # integer sums below 2^52 are exact in float64
             noise = max(noise, nadd * EPS * mag)
     if tol is None:
         tol = float(maxB) * desc["tolfactor"] if maxB > 0 else (0.5 if desc["tolfactor"] != 1.0 else 0.0)
@@ -253,7 +270,7 @@ def run_balance(desc, reuse=None):
     if desc["tol"] == "explicit":
         kw["tolerance"] = tol
     how, err = observe(lambda: mfa.check_mass_balance(**kw))
-    classes = [f"mode:{desc['mode']}", f"tol:{desc['tol']}", "raise" if desc["raise"] else "warn", f"nproc:{desc['nproc']}", f"stocks:{len(desc['stocks'])}", "expect-fail" if expect_fail else "expect-pass"]
+    classes = [f"mode:{desc['mode']}", f"tol:{desc['tol']}" + ("=0" if desc.get("zero_tol") and desc["tol"] == "explicit" else ""), "raise" if desc["raise"] else "warn", f"nproc:{desc['nproc']}", f"stocks:{len(desc['stocks'])}", "expect-fail" if expect_fail else "expect-pass"]
     if nan:
         classes.append("nan")
     if any(v is None for v in per_proc.values()):
@@ -324,6 +341,8 @@ def balance_cases(draw):
             where = draw(st.sampled_from(["S0.stock", "F0", "F1"]))
             d["big"] = {"where": where, "exp": draw(st.sampled_from([20, 30, 40])), "pos": draw(st.integers(0, 20))}
     d["nan"] = {"idx": draw(st.integers(0, 30)), "pos": draw(st.integers(0, 50))} if draw(st.integers(0, 5)) == 0 else None
+    if mode == "balanced" and d["tol"] == "explicit" and draw(st.booleans()):
+        d["zero_tol"] = True
     if mode == "balanced" and d["tol"] == "default" and draw(st.booleans()):
         # second round on the same object: another magnitude and another perturbation
         d["then"] = {
